@@ -44,7 +44,7 @@ def local_names(fn):
 
 
 def _local_names(fn):
-    out = {a.arg for a in fn.args.args + fn.args.kwonlyargs}
+    out = {a.arg for a in fn.args.posonlyargs + fn.args.args + fn.args.kwonlyargs}
     if fn.args.vararg:
         out.add(fn.args.vararg.arg)
     if fn.args.kwarg:
@@ -58,6 +58,10 @@ def _local_names(fn):
             out.add(n.id)
         if isinstance(n, (ast.FunctionDef, ast.ClassDef)):
             out.add(n.name)
+        if isinstance(n, ast.ExceptHandler) and n.name:
+            out.add(n.name)                    # except E as name
+        if isinstance(n, (ast.Import, ast.ImportFrom)):
+            out.update((a.asname or a.name).split('.')[0] for a in n.names)
     return out - glob, glob
 
 
@@ -87,33 +91,561 @@ def set_kinded(node, fn, module_sets, depth=0):
     return False
 
 
+def _pin_value(v):
+    return (isinstance(v, ast.Constant) and v.value is None) or (isinstance(v, ast.Dict) and not v.keys)
+
+
+def enclosing_class(fn):
+    cur = getattr(fn, '_parent', None)
+    while cur is not None and not isinstance(cur, ast.ClassDef):
+        if isinstance(cur, (ast.FunctionDef, ast.Lambda)):
+            return None
+        cur = getattr(cur, '_parent', None)
+    return cur
+
+
 def pinned_globals(g, fn, module_tree=None, depth=0):
-    """Is the globals argument of eval() a dict display that pins `__builtins__` to None / {} - written in place, through a local
-    bound once to such a display, or through a module-level constant holding one (writes into module-level objects are R16.1's
-    business)?"""
-    if g is None or depth > 3:
-        return False
+    """Does the globals argument of eval() pin `__builtins__` to None / {}?  True / False / None (not understood).  Read through a
+    dict display, dict(...) keywords, a local bound once, a module-level constant, or a class-level constant (`self.X` / `Class.X`);
+    writes into module-level objects are R16.1's business."""
+    if g is None:
+        return False                # eval(text): the caller's globals
+    if depth > 3:
+        return None
     if isinstance(g, ast.Dict):
-        return any(isinstance(k, ast.Constant) and k.value == '__builtins__' and
-                   ((isinstance(v, ast.Constant) and v.value is None) or (isinstance(v, ast.Dict) and not v.keys))
-                   for k, v in zip(g.keys, g.values))
+        if any(k is None or not isinstance(k, ast.Constant) for k in g.keys):
+            return None
+        for k, v in zip(g.keys, g.values):
+            if k.value == '__builtins__':
+                return True if _pin_value(v) else (False if isinstance(v, (ast.Constant, ast.Dict)) else None)
+        return False
     if isinstance(g, ast.Call) and dotted(g.func) == 'dict' and not g.args:
-        return any(k.arg == '__builtins__' and ((isinstance(k.value, ast.Constant) and k.value.value is None) or (isinstance(k.value, ast.Dict) and not k.value.keys))
-                   for k in g.keywords)
+        if any(k.arg is None for k in g.keywords):
+            return None
+        for k in g.keywords:
+            if k.arg == '__builtins__':
+                return True if _pin_value(k.value) else (False if isinstance(k.value, (ast.Constant, ast.Dict)) else None)
+        return False
     if isinstance(g, ast.Name):
         locs, _ = local_names(fn)
         if g.id in locs:
             defs = [st.value for st in walk_no_nested(fn) if isinstance(st, ast.Assign) and any(isinstance(t, ast.Name) and t.id == g.id for t in st.targets)]
-            return len(defs) == 1 and pinned_globals(defs[0], fn, module_tree, depth + 1)
+            return pinned_globals(defs[0], fn, module_tree, depth + 1) if len(defs) == 1 else None
         if module_tree is not None:
             defs = [st.value for st in module_tree.body if isinstance(st, ast.Assign) and any(isinstance(t, ast.Name) and t.id == g.id for t in st.targets)]
-            return len(defs) == 1 and pinned_globals(defs[0], fn, None, depth + 1)
+            return pinned_globals(defs[0], fn, None, depth + 1) if len(defs) == 1 else None
+        return None
+    if isinstance(g, ast.Attribute) and isinstance(g.value, ast.Name):
+        cls = None
+        if g.value.id in ('self', 'cls') or (fn.args.args and g.value.id == fn.args.args[0].arg):
+            cls = enclosing_class(fn)
+        elif module_tree is not None:
+            cls = next((st for st in module_tree.body if isinstance(st, ast.ClassDef) and st.name == g.value.id), None)
+        if cls is None:
+            return None
+        defs = [st.value for st in cls.body if isinstance(st, ast.Assign) and any(isinstance(t, ast.Name) and t.id == g.attr for t in st.targets)]
+        return pinned_globals(defs[0], fn, None, depth + 1) if len(defs) == 1 else None
+    return None
+
+
+# -- order sensitivity of an iteration over a set -----------------------------------------------------------------------------
+REDUCERS = {'any', 'all', 'sum', 'set', 'frozenset', 'len', 'sorted', 'min', 'max'}        # sorted / min / max: without key=
+PURE_BUILTINS = {'len', 'isinstance', 'str', 'int', 'bool', 'abs', 'type', 'hasattr', 'repr', 'tuple', 'frozenset', 'ord', 'chr', 'hex',
+                 'min', 'max', 'float', 'round', 'divmod'}
+PURE_METHODS = {'get', 'keys', 'values', 'items', 'startswith', 'endswith', 'lower', 'upper', 'strip', 'lstrip', 'rstrip', 'format',
+                'count', 'index', 'isdigit', 'isdisjoint', 'issubset', 'issuperset', 'split', 'join', 'copy'}
+ORDERED_SINKS = {'append', 'extend', 'insert', 'appendleft', 'write', 'writelines', 'send'}
+
+
+def pure_expr(node):
+    """An expression without effects: names, constants, operators, subscripts, attribute loads, calls of a few builtins and
+    read-only methods."""
+    for n in ast.walk(node):
+        if isinstance(n, (ast.Yield, ast.YieldFrom, ast.Await, ast.NamedExpr, ast.Lambda)):
+            return False
+        if isinstance(n, ast.Call):
+            if isinstance(n.func, ast.Name) and n.func.id in PURE_BUILTINS | REDUCERS:
+                continue
+            if isinstance(n.func, ast.Attribute) and n.func.attr in PURE_METHODS:
+                continue
+            return False
+    return True
+
+
+def _has_key(call):
+    return any(k.arg in ('key', None) for k in call.keywords)
+
+
+def _name_loads(fn, name):
+    return [n for n in ast.walk(fn) if isinstance(n, ast.Name) and n.id == name and isinstance(n.ctx, ast.Load)]
+
+
+def resolve_function(func, fn):
+    """The FunctionDef a plain name denotes at a call inside fn: a closure defined in fn (or in a function around it), else a
+    module-level function; None when the name is bound in any other way."""
+    cur = fn
+    while cur is not None:
+        if isinstance(cur, (ast.FunctionDef, ast.Module)):
+            defs = [st for st in (walk_no_nested(cur) if isinstance(cur, ast.FunctionDef) else cur.body) if isinstance(st, ast.FunctionDef) and st.name == func.id and st is not cur]
+            if len(defs) == 1:
+                return defs[0]
+            if defs:
+                return None
+            if isinstance(cur, ast.FunctionDef) and func.id in local_names(cur)[0]:
+                return None
+        cur = getattr(cur, '_parent', None)
+    return None
+
+
+def consumer_class(node, fn, depth=0):
+    """How the order of an order-carrying expression `node` (a comprehension / list() / view over a set) is used:
+    'ok' (the consumer does not depend on it), 'bad' (it positively does), 'unknown'."""
+    par = getattr(node, '_parent', None)
+    if depth > 4 or par is None:
+        return 'unknown'
+    if isinstance(par, ast.Call) and node in par.args:
+        f = par.func
+        if isinstance(f, ast.Name) and f.id in REDUCERS and len(par.args) == 1:
+            if f.id in ('sorted', 'min', 'max') and _has_key(par):
+                return 'unknown'
+            return 'ok'
+        if isinstance(f, ast.Name) and f.id in ('list', 'tuple', 'iter', 'reversed') and len(par.args) == 1:
+            return consumer_class(par, fn, depth + 1)             # still a sequence in that order
+        if isinstance(f, ast.Name) and f.id in ('enumerate', 'zip', 'next', 'dict', 'OrderedDict'):
+            return 'bad'
+        if isinstance(f, ast.Attribute) and f.attr in LOG_METHODS and isinstance(f.value, ast.Name) and f.value.id in LOG_RECEIVERS:
+            return 'ok'                  # log output is not among the results the property speaks about
+        if isinstance(f, ast.Attribute) and f.attr == 'join':
+            return 'ok' if only_logged(par, fn) else 'bad'
+        if isinstance(f, ast.Attribute) and f.attr in ORDERED_SINKS:
+            return 'bad'
+        if isinstance(f, ast.Attribute) and f.attr in ('update', 'intersection', 'union', 'difference', 'issubset', 'issuperset', 'isdisjoint') \
+                and not isinstance(node, (ast.DictComp,)):
+            return 'ok' if f.attr != 'update' else 'unknown'
+        callee = resolve_function(f, fn) if isinstance(f, ast.Name) else None
+        if callee is not None and depth < 3 and not any(isinstance(a, ast.Starred) for a in par.args):
+            # handed to a function of the module / a local closure: how that function uses the parameter
+            cparams = [a.arg for a in callee.args.posonlyargs + callee.args.args]
+            i = par.args.index(node)
+            if i < len(cparams):
+                pname = cparams[i]
+                if any(isinstance(n, ast.Name) and n.id == pname and isinstance(n.ctx, ast.Store) for n in ast.walk(callee)):
+                    return 'unknown'
+                out = 'ok'
+                for use in _name_loads(callee, pname):
+                    c = use_class(use, callee, 'seq', depth + 1)
+                    if c == 'bad':
+                        return 'bad'
+                    if c == 'unknown':
+                        out = 'unknown'
+                return out
+        return 'unknown'
+    if isinstance(par, (ast.Starred, ast.Return, ast.Yield, ast.YieldFrom)):
+        return 'bad'
+    if isinstance(par, (ast.Tuple, ast.List)) and isinstance(getattr(par, 'ctx', None), ast.Load):
+        return consumer_class(par, fn, depth + 1)            # kept, in that order, inside a display
+    if isinstance(par, ast.Subscript) and par.value is node:
+        return 'bad' if not isinstance(node, ast.DictComp) else 'ok'
+    if isinstance(par, (ast.For, ast.comprehension)) and par.iter is node:
+        return 'unknown'
+    if isinstance(par, ast.Compare):
+        return 'ok' if any(isinstance(o, (ast.In, ast.NotIn)) for o in par.ops) and node in par.comparators else 'unknown'
+    if isinstance(par, (ast.If, ast.While, ast.IfExp)) and par.test is node:
+        return 'ok'
+    if isinstance(par, ast.UnaryOp) and isinstance(par.op, ast.Not):
+        return 'ok'
+    if isinstance(par, ast.Assign) and len(par.targets) == 1 and isinstance(par.targets[0], ast.Name) and par.value is node and fn is not None:
+        name = par.targets[0].id
+        stores = [n for n in ast.walk(fn) if isinstance(n, ast.Name) and n.id == name and isinstance(n.ctx, (ast.Store, ast.Del))]
+        if len(stores) != 1:
+            return 'unknown'
+        kind = 'dict' if isinstance(node, ast.DictComp) else 'seq'
+        out = 'ok'
+        for use in _name_loads(fn, name):
+            c = use_class(use, fn, kind, depth + 1, node)
+            if c == 'bad':
+                return 'bad'
+            if c == 'unknown':
+                out = 'unknown'
+        return out
+    return 'unknown'
+
+
+def use_class(use, fn, kind, depth, src=None):
+    """One load of a local that holds a container whose order depends on the hash seed (src: the expression it was built by)."""
+    par = getattr(use, '_parent', None)
+    if isinstance(par, ast.Call) and use in par.args and isinstance(par.func, ast.Attribute) and par.func.attr == 'update' and len(par.args) == 1 \
+            and isinstance(par.func.value, ast.Name) and isinstance(src, ast.DictComp) and len(src.generators) == 1:
+        # T.update({k: ... for k in <keys of T>}): only entries that exist already are overwritten, the order of T stays
+        g = src.generators[0]
+        if isinstance(g.target, ast.Name) and isinstance(src.key, ast.Name) and src.key.id == g.target.id and within_keys(g.iter, par.func.value.id):
+            return 'ok'
+    if isinstance(par, ast.Attribute) and par.value is use:
+        call = getattr(par, '_parent', None)
+        if isinstance(call, ast.Call) and call.func is par:
+            if par.attr in ('get', '__contains__', 'count', 'index') and kind == 'dict':
+                return 'ok'
+            if par.attr in ('keys', 'values', 'items', 'copy') and not call.args:
+                return consumer_class(call, fn, depth)
+            if par.attr in MUTATORS:
+                return 'unknown'
+        return 'unknown'
+    if isinstance(par, ast.Subscript) and par.value is use:
+        return 'ok' if kind == 'dict' else 'bad'
+    if isinstance(par, (ast.For, ast.comprehension)) and par.iter is use:
+        if isinstance(par, ast.For):
+            return loop_body_class(par, fn)
+        comp = getattr(par, '_parent', None)
+        if isinstance(comp, ast.SetComp):
+            return 'ok' if pure_expr(comp.elt) and all(pure_expr(i) for i in par.ifs) else 'unknown'
+        if isinstance(comp, (ast.GeneratorExp, ast.ListComp, ast.DictComp)):
+            elts = [comp.key, comp.value] if isinstance(comp, ast.DictComp) else [comp.elt]
+            if not all(pure_expr(e) for e in elts) or not all(pure_expr(i) for i in par.ifs):
+                return 'unknown'
+            return consumer_class(comp, fn, depth)
+        return 'unknown'
+    if isinstance(par, ast.BoolOp):
+        return 'ok' if isinstance(getattr(par, '_parent', None), (ast.If, ast.While, ast.IfExp, ast.UnaryOp, ast.BoolOp)) else 'unknown'
+    return consumer_class(use, fn, depth)
+
+
+def keys_of(e, table):
+    """table.keys() / set(table) / set(table.keys()): spellings of the key set of the dict named `table`"""
+    if isinstance(e, ast.Call) and isinstance(e.func, ast.Attribute) and e.func.attr == 'keys' and not e.args:
+        return isinstance(e.func.value, ast.Name) and e.func.value.id == table
+    if isinstance(e, ast.Call) and isinstance(e.func, ast.Name) and e.func.id in ('set', 'frozenset') and len(e.args) == 1:
+        return keys_of(e.args[0], table) or (isinstance(e.args[0], ast.Name) and e.args[0].id == table)
     return False
 
 
-def check_function(qual, fn, mutables, module_sets, emit, is_entry_like=False, module_tree=None):
-    """emit(rule, node, message)"""
+def within_keys(it, table):
+    """does the iterable only yield keys of the dict named `table` (its key set, or an intersection with it)?"""
+    if isinstance(it, ast.BinOp) and isinstance(it.op, ast.BitAnd):
+        return keys_of(it.left, table) or keys_of(it.right, table) or within_keys(it.left, table) or within_keys(it.right, table)
+    if isinstance(it, ast.Call) and isinstance(it.func, ast.Attribute) and it.func.attr == 'intersection' and len(it.args) == 1:
+        return keys_of(it.func.value, table) or keys_of(it.args[0], table)
+    return keys_of(it, table)
+
+
+def _guarded_existing_key(stmt, loop, key, table):
+    """Is `table[key] = ...` reached only when `key in table` holds (an enclosing `if key in table [and ...]` or an earlier
+    `if key not in table [or ...]: continue` of the same iteration)?"""
+    def is_member(t, positive):
+        return isinstance(t, ast.Compare) and len(t.ops) == 1 and isinstance(t.ops[0], ast.In if positive else ast.NotIn) \
+            and isinstance(t.left, ast.Name) and t.left.id == key and isinstance(t.comparators[0], ast.Name) and t.comparators[0].id == table
+
+    def conjuncts(t):
+        return t.values if isinstance(t, ast.BoolOp) and isinstance(t.op, ast.And) else [t]
+
+    def disjuncts(t):
+        return t.values if isinstance(t, ast.BoolOp) and isinstance(t.op, ast.Or) else [t]
+    if isinstance(loop.target, ast.Name) and loop.target.id == key and within_keys(loop.iter, table):
+        return True                     # the loop runs over (a subset of) the keys of the table
+    cur, child = getattr(stmt, '_parent', None), stmt
+    while cur is not None:
+        if isinstance(cur, ast.If) and any(child is s for s in cur.body) and any(is_member(c, True) for c in conjuncts(cur.test)):
+            return True
+        body = cur.body if cur is loop else (cur.body if isinstance(cur, ast.If) and any(child is s for s in cur.body) else
+                                              (cur.orelse if isinstance(cur, ast.If) else []))
+        for s in body:
+            if s is child:
+                break
+            if isinstance(s, ast.If) and not s.orelse and len(s.body) == 1 and isinstance(s.body[0], ast.Continue) \
+                    and any(is_member(d, False) for d in disjuncts(s.test)):
+                return True
+        if cur is loop:
+            return False
+        cur, child = getattr(cur, '_parent', None), cur
+    return False
+
+
+def loop_body_class(loop, fn):
+    """`for <target> in <set-ordered iterable>`: does the outcome of the loop depend on the order of the iteration?
+    'ok': every statement commutes between iterations (flags set to constants, counters, set.add, stores under the loop variable
+    into keys that already exist, temporaries); 'bad': elements are appended / emitted / returned in iteration order; else
+    'unknown'."""
+    loopvars = {n.id for n in ast.walk(loop.target) if isinstance(n, ast.Name)}
+    exits = any(isinstance(n, (ast.Break, ast.Return)) for n in walk_no_nested(loop))
+    verdict = ['ok']
+
+    def worse(v):
+        if v == 'bad' or (v == 'unknown' and verdict[0] == 'ok'):
+            verdict[0] = v
+
+    def temp(name):
+        """a name whose every load sits inside the loop, after its first store there"""
+        inside = {id(n) for n in ast.walk(loop)}
+        loads = [n for n in _name_loads(fn, name)] if fn is not None else []
+        if any(id(n) not in inside for n in loads):
+            return False
+        stores = [n for n in ast.walk(loop) if isinstance(n, ast.Name) and n.id == name and isinstance(n.ctx, ast.Store)]
+        first = min((n.lineno, n.col_offset) for n in stores) if stores else None
+        return first is not None and all((n.lineno, n.col_offset) > first or n.lineno > first[0] for n in loads)
+
+    def stmt(s):
+        if isinstance(s, (ast.Pass, ast.Continue, ast.Break)):
+            return
+        if isinstance(s, ast.If):
+            if not pure_expr(s.test):
+                worse('unknown')
+            for b in s.body + s.orelse:
+                stmt(b)
+            return
+        if isinstance(s, ast.Return):
+            worse('ok' if s.value is None or isinstance(s.value, ast.Constant) else 'bad')
+            return
+        if isinstance(s, ast.Assign) and len(s.targets) == 1:
+            t = s.targets[0]
+            if not pure_expr(s.value):
+                worse('unknown')
+            elif isinstance(t, ast.Name):
+                if isinstance(s.value, ast.Constant) or temp(t.id):
+                    return
+                worse('unknown')
+            elif isinstance(t, ast.Subscript) and isinstance(t.value, ast.Name) and isinstance(t.slice, ast.Name) and t.slice.id in loopvars \
+                    and not exits and _guarded_existing_key(s, loop, t.slice.id, t.value.id):
+                # reads of the table inside the value: only the very entry that is written
+                for n in ast.walk(s.value):
+                    if isinstance(n, ast.Name) and n.id == t.value.id:
+                        pp = getattr(n, '_parent', None)
+                        if not (isinstance(pp, ast.Subscript) and pp.value is n and isinstance(pp.slice, ast.Name) and pp.slice.id == t.slice.id):
+                            worse('unknown')
+            else:
+                worse('unknown')
+            return
+        if isinstance(s, ast.AugAssign) and isinstance(s.target, ast.Name) and isinstance(s.op, (ast.Add, ast.Sub, ast.BitOr, ast.BitAnd)) \
+                and isinstance(s.value, ast.Constant) and isinstance(s.value.value, int) and not exits:
+            return
+        if isinstance(s, ast.Expr) and isinstance(s.value, ast.Call):
+            f = s.value.func
+            if isinstance(f, ast.Attribute) and f.attr in ('add', 'discard') and all(pure_expr(a) for a in s.value.args) and not exits:
+                return
+            if isinstance(f, ast.Attribute) and f.attr in LOG_METHODS and isinstance(f.value, ast.Name) and f.value.id in LOG_RECEIVERS \
+                    and all(pure_expr(a) for a in s.value.args):
+                return
+            if isinstance(f, ast.Attribute) and f.attr in ORDERED_SINKS:
+                worse('bad')
+                return
+            if isinstance(f, ast.Name) and f.id == 'print':
+                worse('bad')
+                return
+            worse('unknown')
+            return
+        if isinstance(s, ast.Expr) and isinstance(s.value, (ast.Yield, ast.YieldFrom)):
+            worse('bad')
+            return
+        worse('unknown')
+    for s in loop.body + loop.orelse:
+        stmt(s)
+    return verdict[0]
+
+
+def set_iteration_class(node, fn):
+    """Classify one site at which a set-kinded value `node` is iterated / materialised."""
+    par = getattr(node, '_parent', None)
+    if isinstance(par, ast.For) and par.iter is node:
+        return loop_body_class(par, fn)
+    if isinstance(par, ast.comprehension) and par.iter is node:
+        comp = getattr(par, '_parent', None)
+        if comp is None or len(comp.generators) != 1:
+            return 'unknown'
+        elts = [comp.key, comp.value] if isinstance(comp, ast.DictComp) else [comp.elt]
+        pure = all(pure_expr(e) for e in elts) and all(pure_expr(i) for i in par.ifs)
+        c = 'ok' if isinstance(comp, ast.SetComp) else consumer_class(comp, fn)
+        if c == 'bad':
+            return 'bad'
+        return c if pure else 'unknown'
+    if isinstance(par, ast.Call) and isinstance(par.func, ast.Name) and par.func.id in ('list', 'tuple', 'iter') and node in par.args:
+        c = consumer_class(par, fn)
+        return c
+    return 'bad'
+
+
+def order_use_class(node, fn):
+    """How the order of a sequence whose order is not defined (a directory listing) is used: 'ok' / 'bad' / 'unknown'."""
+    par = getattr(node, '_parent', None)
+    if (isinstance(par, (ast.For, ast.comprehension)) and par.iter is node) or \
+            (isinstance(par, ast.Call) and isinstance(par.func, ast.Name) and par.func.id in ('list', 'tuple', 'iter') and node in par.args):
+        return set_iteration_class(node, fn)
+    return consumer_class(node, fn)
+
+
+def memo_purity(fn, module_tree=None, depth=0):
+    """Is it safe to memoise this function across calls?  'pure': the result is a function of the (hashable) arguments alone -
+    arithmetic, comparisons, builtins, lookups in module-level tables (writes to those are R16.1's business), calls of functions
+    that are pure in the same sense; 'impure': it reads files / the environment / attributes of its arguments (objects that can
+    change while their hash stays the same); else 'unknown'."""
+    params = {a.arg for a in fn.args.posonlyargs + fn.args.args + fn.args.kwonlyargs}
+    out = 'pure'
+    in_decorators = {id(x) for dec in fn.decorator_list for x in ast.walk(dec)} | {id(x) for x in ast.walk(fn.args)}
+    for n in walk_no_nested(fn):
+        if n is fn or id(n) in in_decorators:
+            continue
+        if isinstance(n, (ast.Global, ast.Nonlocal, ast.Yield, ast.YieldFrom)):
+            return 'impure'
+        if isinstance(n, (ast.FunctionDef, ast.Lambda, ast.ClassDef, ast.With)) and n is not fn:
+            out = 'unknown'
+        if isinstance(n, ast.Attribute) and isinstance(n.value, ast.Name) and n.value.id in params and isinstance(n.ctx, ast.Load):
+            call = getattr(n, '_parent', None)
+            if not (isinstance(call, ast.Call) and call.func is n and n.attr in PURE_METHODS | {'bit_length', 'to_bytes', 'encode', 'decode'}):
+                return 'impure'
+        if isinstance(n, ast.Call):
+            d = dotted(n.func)
+            if d in ('os.path.join', 'os.path.basename', 'os.path.dirname', 'os.path.normpath', 'os.path.splitext', 'os.path.split', 'os.path.isabs'):
+                continue                        # text operations on paths
+            if d in ('open', 'input', 'print') or (d and d.split('.')[0] in ('os', 'sys', 'time', 'random', 'io', 'glob', 'socket')) \
+                    or d in AMBIENT_CALLS or d in UNSORTED_LISTING:
+                return 'impure'
+            if isinstance(n.func, ast.Name) and n.func.id in PURE_BUILTINS | REDUCERS | {'range', 'pow', 'bin', 'oct', 'bytes', 'list', 'dict', 'c_int32', 'c_uint32'}:
+                continue
+            if isinstance(n.func, ast.Attribute) and n.func.attr in PURE_METHODS | {'bit_length', 'to_bytes', 'encode', 'decode', 'from_bytes'}:
+                continue
+            callee = None
+            if isinstance(n.func, ast.Name) and module_tree is not None:
+                callee = next((st for st in module_tree.body if isinstance(st, ast.FunctionDef) and st.name == n.func.id), None)
+            if callee is not None and callee is not fn and depth < 3:
+                sub = memo_purity(callee, module_tree, depth + 1)
+                if sub == 'impure':
+                    return 'impure'
+                if sub == 'unknown':
+                    out = 'unknown'
+                continue
+            out = 'unknown'
+    return out
+
+
+def default_use_class(fn, name, module_tree=None, depth=0, seen=None):
+    """How a function uses the parameter `name` (whose default is a mutable object shared between calls): 'bad' when the object is
+    changed, 'ok' when it is only read (tested, iterated, copied, looked into), 'unknown' when it escapes."""
+    seen = seen if seen is not None else set()
+    if (id(fn), name) in seen or depth > 3:
+        return 'ok'
+    seen.add((id(fn), name))
+    out = 'ok'
+    # the analysis is flow-insensitive: once the name is bound again (`dirs = list(dirs)`) a later change may hit the new object
+    rebound = any(isinstance(n, ast.Name) and n.id == name and isinstance(n.ctx, ast.Store) and not isinstance(getattr(n, '_parent', None), ast.AugAssign)
+                  for n in walk_no_nested(fn))
+    if rebound:
+        return 'unknown'
+    for n in walk_no_nested(fn):
+        if isinstance(n, ast.AugAssign) and isinstance(n.target, ast.Name) and n.target.id == name:
+            return 'bad'
+        if not (isinstance(n, ast.Name) and n.id == name and isinstance(n.ctx, ast.Load)):
+            continue
+        par = getattr(n, '_parent', None)
+        if isinstance(par, ast.Subscript) and par.value is n:
+            if isinstance(par.ctx, (ast.Store, ast.Del)):
+                return 'bad'
+            continue
+        if isinstance(par, ast.Attribute) and par.value is n:
+            call = getattr(par, '_parent', None)
+            if isinstance(call, ast.Call) and call.func is par and par.attr in MUTATORS:
+                return 'bad'
+            if isinstance(call, ast.Call) and call.func is par and par.attr in PURE_METHODS:
+                continue
+            out = 'unknown'
+            continue
+        if isinstance(par, (ast.BoolOp, ast.Compare, ast.UnaryOp, ast.If, ast.While, ast.IfExp)) and not (isinstance(par, ast.IfExp) and par.test is not n):
+            if isinstance(par, ast.BoolOp):
+                # `name or []`: the default object itself may be the value of the expression; follow one step
+                gp = getattr(par, '_parent', None)
+                if isinstance(gp, ast.Call) and isinstance(gp.func, (ast.Name, ast.Attribute)) and (dotted(gp.func) or '') in (
+                        'copy.deepcopy', 'copy.copy', 'list', 'tuple', 'dict', 'set', 'sorted', 'len', 'frozenset'):
+                    continue
+                if isinstance(gp, (ast.If, ast.While, ast.For, ast.comprehension)):
+                    continue
+                out = 'unknown'
+            continue
+        if isinstance(par, (ast.For, ast.comprehension)) and par.iter is n:
+            continue
+        if isinstance(par, ast.Starred):
+            continue
+        if isinstance(par, ast.Call) and n in par.args:
+            d = dotted(par.func) or ''
+            if d in ('copy.deepcopy', 'copy.copy', 'list', 'tuple', 'dict', 'set', 'sorted', 'len', 'frozenset', 'any', 'all', 'sum', 'isinstance', 'enumerate', 'iter'):
+                continue
+            if d in ('ChainMap', 'collections.ChainMap') and par.args.index(n) > 0:
+                continue                  # a fall-back map: looked into, never written through
+            callee = next((st for st in module_tree.body if isinstance(st, ast.FunctionDef) and st.name == d), None) if module_tree is not None else None
+            if callee is not None:
+                cparams = [a.arg for a in callee.args.posonlyargs + callee.args.args]
+                i = par.args.index(n)
+                if i < len(cparams) and not any(isinstance(a, ast.Starred) for a in par.args[:i + 1]):
+                    sub = default_use_class(callee, cparams[i], module_tree, depth + 1, seen)
+                    if sub == 'bad':
+                        return 'bad'
+                    if sub == 'unknown':
+                        out = 'unknown'
+                    continue
+            out = 'unknown'
+            continue
+        if isinstance(par, ast.keyword) and isinstance(getattr(par, '_parent', None), ast.Call):
+            call = par._parent
+            d = dotted(call.func) or ''
+            callee = next((st for st in module_tree.body if isinstance(st, ast.FunctionDef) and st.name == d), None) if module_tree is not None else None
+            if callee is not None and par.arg in [a.arg for a in callee.args.posonlyargs + callee.args.args + callee.args.kwonlyargs]:
+                sub = default_use_class(callee, par.arg, module_tree, depth + 1, seen)
+                if sub == 'bad':
+                    return 'bad'
+                if sub == 'unknown':
+                    out = 'unknown'
+                continue
+            out = 'unknown'
+            continue
+        out = 'unknown'
+    return out
+
+
+LOG_RECEIVERS = {'log', 'logging', 'logger', 'LOG', 'LOGGER'}
+LOG_METHODS = {'debug', 'info', 'warning', 'error', 'exception', 'critical', 'log'}
+
+
+def only_logged(node, fn, depth=0):
+    """Does the value of the expression `node` flow only into log messages (directly or through locals that are only logged)?"""
+    cur = node
+    while True:
+        par = getattr(cur, '_parent', None)
+        if par is None or depth > 3:
+            return False
+        if isinstance(par, ast.Call) and isinstance(par.func, ast.Attribute) and par.func.attr in LOG_METHODS \
+                and isinstance(par.func.value, ast.Name) and par.func.value.id in LOG_RECEIVERS and isinstance(getattr(par, '_parent', None), ast.Expr):
+            return True
+        if isinstance(par, (ast.BinOp, ast.UnaryOp, ast.JoinedStr, ast.FormattedValue, ast.Tuple)):
+            cur = par
+            continue
+        if isinstance(par, ast.Call) and (cur in par.args or any(k.value is cur for k in par.keywords)) and (
+                (isinstance(par.func, ast.Name) and par.func.id in ('str', 'int', 'float', 'round', 'repr', 'format', 'abs')) or
+                (isinstance(par.func, ast.Attribute) and par.func.attr == 'format')):
+            cur = par
+            continue
+        if isinstance(par, ast.keyword):
+            cur = par
+            continue
+        if isinstance(par, ast.Assign) and len(par.targets) == 1 and isinstance(par.targets[0], ast.Name) and par.value is cur:
+            name = par.targets[0].id
+            if name in local_names(fn)[1]:
+                return False
+            loads = [n for n in ast.walk(fn) if isinstance(n, ast.Name) and n.id == name and isinstance(n.ctx, ast.Load)]
+            return all(only_logged(n, fn, depth + 1) for n in loads)
+        return False
+
+
+def enclosing_locals(fn):
+    """Local names of the functions a nested function is defined in (its closure variables are not module state)."""
+    out = set()
+    cur = getattr(fn, '_parent', None)
+    while cur is not None:
+        if isinstance(cur, ast.FunctionDef):
+            out |= local_names(cur)[0]
+        cur = getattr(cur, '_parent', None)
+    return out
+
+
+def check_function(qual, fn, mutables, module_sets, emit, is_entry_like=False, module_tree=None, undecided=None):
+    """emit(rule, node, message) reports a violation; undecided(rule, node, message) a construct the rule does not see through"""
+    undecided = undecided or (lambda rule, node, msg: None)
     locs, glob = local_names(fn)
+    outer = enclosing_locals(fn)
     for n in walk_no_nested(fn):
         if isinstance(n, ast.Global):
             emit('R16.1.module-state', n, 'function declares module names global: {}'.format(', '.join(n.names)))
@@ -147,7 +679,7 @@ def check_function(qual, fn, mutables, module_sets, emit, is_entry_like=False, m
                     if m:
                         emit('R16.1.module-state', n, 'writes into the module-level object {} at call time'.format(m))
                 if isinstance(sub, ast.Attribute) and isinstance(sub.ctx, ast.Store) and isinstance(sub.value, ast.Name) \
-                        and sub.value.id not in locs and sub.value.id not in mutables and sub.value.id not in ('self', 'cls'):
+                        and sub.value.id not in locs and sub.value.id not in outer and sub.value.id not in mutables and sub.value.id not in ('self', 'cls'):
                     emit('R16.2.function-state', n, 'stores state on the module-level object {} (function attribute / memo)'.format(sub.value.id))
         if isinstance(n, ast.Call) and isinstance(n.func, ast.Attribute) and n.func.attr in MUTATORS:
             m = module_obj(n.func.value)
@@ -157,51 +689,91 @@ def check_function(qual, fn, mutables, module_sets, emit, is_entry_like=False, m
             m = module_obj(n.args[0])
             if m:
                 emit('R16.1.module-state', n, 'ChainMap puts the module-level {} in the writable first position'.format(m))
+        if isinstance(n, ast.Call) and isinstance(n.func, ast.Name) and module_tree is not None and n.func.id not in locs:
+            # a module-level object handed to a repository function: does that function change its parameter?
+            callee = next((st for st in module_tree.body if isinstance(st, ast.FunctionDef) and st.name == n.func.id), None)
+            if callee is not None:
+                cpos = [a.arg for a in callee.args.posonlyargs + callee.args.args]
+                ckw = cpos + [a.arg for a in callee.args.kwonlyargs]
+                handed = [(cpos[i], a) for i, a in enumerate(n.args) if i < len(cpos) and not any(isinstance(x, ast.Starred) for x in n.args[:i + 1])]
+                handed += [(k.arg, k.value) for k in n.keywords if k.arg in ckw]
+                for pname, a in handed:
+                    m = module_obj(a)
+                    if m and mutables.get(m) != 'class':
+                        use = default_use_class(callee, pname, module_tree)
+                        if use == 'bad':
+                            emit('R16.1.module-state', n, '{}() changes its parameter `{}`, which is the module-level object {} here'.format(callee.name, pname, m))
+                        elif use == 'unknown':
+                            undecided('R16.1.module-state', n, 'the module-level object {} is handed to {}(); whether it is changed there is not followed'.format(m, callee.name))
     # defaults
-    for d in list(fn.args.defaults) + [k for k in fn.args.kw_defaults if k is not None]:
+    pos = fn.args.posonlyargs + fn.args.args
+    with_defaults = list(zip(pos[len(pos) - len(fn.args.defaults):], fn.args.defaults)) + \
+        [(a, k) for a, k in zip(fn.args.kwonlyargs, fn.args.kw_defaults) if k is not None]
+    for a, d in with_defaults:
         if isinstance(d, (ast.List, ast.Dict, ast.Set, ast.ListComp, ast.DictComp, ast.SetComp)) or \
                 (isinstance(d, ast.Call) and dotted(d.func) in ('list', 'dict', 'set', 'bytearray', 'collections.defaultdict', 'defaultdict')):
-            emit('R16.2.mutable-default', d, 'mutable default argument {} is shared between calls'.format(unparse(d)))
+            use = default_use_class(fn, a.arg, module_tree)
+            if use == 'bad':
+                emit('R16.2.mutable-default', d, 'mutable default argument {} is shared between calls and changed by them'.format(unparse(d)))
+            elif use == 'unknown':
+                undecided('R16.2.mutable-default', d, 'mutable default argument {}={}: the object leaves the function in a way that is not followed'.format(a.arg, unparse(d)))
     for dec in fn.decorator_list:
         name = dotted(dec.func) if isinstance(dec, ast.Call) else dotted(dec)
         if name and name.split('.')[-1] in ('lru_cache', 'cache', 'cached_property', 'memoize'):
-            emit('R16.2.function-state', dec, 'function results are memoised across calls ({})'.format(name))
+            kind = memo_purity(fn, module_tree)
+            if kind == 'impure':
+                emit('R16.2.function-state', dec, 'function results are memoised across calls ({}) although they depend on more than the arguments'.format(name))
+            elif kind == 'unknown':
+                undecided('R16.2.function-state', dec, 'function results are memoised across calls ({}); whether they depend on the arguments alone is not established'.format(name))
     # set iteration
-    def set_iter(node, what):
+    def set_iter(node, what, always_bad=False):
         if set_kinded(node, fn, module_sets):
-            emit('R16.4.hash-order', node, '{} a set ({}): order depends on the interpreter\'s hash seed'.format(what, unparse(node)[:60]))
+            kind = 'bad' if always_bad else set_iteration_class(node, fn)
+            if kind == 'bad':
+                emit('R16.4.hash-order', node, '{} a set ({}): order depends on the interpreter\'s hash seed'.format(what, unparse(node)[:60]))
+            elif kind == 'unknown':
+                undecided('R16.4.hash-order', node, '{} a set ({}); whether the order of the elements matters there is not established'.format(what, unparse(node)[:60]))
     for n in walk_no_nested(fn):
         if isinstance(n, ast.For):
             set_iter(n.iter, 'iterates over')
         if isinstance(n, (ast.ListComp, ast.GeneratorExp, ast.DictComp)):
             for g in n.generators:
                 set_iter(g.iter, 'iterates over')
-        if isinstance(n, ast.Call) and dotted(n.func) in ('list', 'tuple', 'next', 'iter', 'enumerate', 'zip') and n.args:
+        if isinstance(n, ast.Call) and dotted(n.func) in ('list', 'tuple', 'iter') and n.args:
             set_iter(n.args[0], 'materialises')
+        if isinstance(n, ast.Call) and dotted(n.func) in ('next', 'enumerate', 'zip') and n.args:
+            set_iter(n.args[0], 'materialises', always_bad=True)
         if isinstance(n, ast.Call) and dotted(n.func) in ('dict', 'collections.OrderedDict', 'OrderedDict') and n.args:
             # dict(<set of pairs>): for a key that occurs twice the pair iterated last wins
-            set_iter(n.args[0], 'builds a dict from')
+            set_iter(n.args[0], 'builds a dict from', always_bad=True)
         if isinstance(n, ast.Call) and isinstance(n.func, ast.Attribute) and n.func.attr == 'join' and n.args:
-            set_iter(n.args[0], 'joins')
+            if not only_logged(n, fn):
+                set_iter(n.args[0], 'joins', always_bad=True)
         if isinstance(n, ast.Call) and isinstance(n.func, ast.Attribute) and n.func.attr == 'pop' and not n.args:
-            set_iter(n.func.value, 'pops from')
+            set_iter(n.func.value, 'pops from', always_bad=True)
         if isinstance(n, ast.Starred):
-            set_iter(n.value, 'unpacks')
+            set_iter(n.value, 'unpacks', always_bad=True)
     # ambient inputs
     for n in walk_no_nested(fn):
         if isinstance(n, ast.Call):
             d = dotted(n.func)
             if d in AMBIENT_CALLS or (d and d.startswith('random.')):
-                emit('R16.5.ambient', n, 'result depends on an ambient input: {}()'.format(d))
+                if not only_logged(n, fn):
+                    emit('R16.5.ambient', n, 'result depends on an ambient input: {}()'.format(d))
             if d in UNSORTED_LISTING:
-                par = getattr(n, '_parent', None)
-                if not (isinstance(par, ast.Call) and dotted(par.func) == 'sorted'):
+                use = order_use_class(n, fn)
+                if use == 'bad':
                     emit('R16.5.ambient', n, 'directory listing order is not defined: {}() without sorted()'.format(d))
+                elif use == 'unknown':
+                    undecided('R16.5.ambient', n, 'directory listing order is not defined ({}()); whether the order matters where the listing goes is not established'.format(d))
             if d == 'os.getcwd':
                 emit('R16.5.cwd', n, 'consults the process working directory')
             if d == 'eval' or d == 'exec':
                 g = n.args[1] if len(n.args) > 1 else next((k.value for k in n.keywords if k.arg == 'globals'), None)
-                if not pinned_globals(g, fn, module_tree):
+                pinned = pinned_globals(g, fn, module_tree)
+                if pinned is False:
                     emit('R16.6.eval-sandbox', n, 'eval() globals are not a dict that pins __builtins__: user expressions can reach interpreter state')
+                elif pinned is None:
+                    undecided('R16.6.eval-sandbox', n, 'the globals of {} are not followed to a dict display'.format(unparse(n)[:60]))
         if isinstance(n, ast.Attribute) and dotted(n) == 'os.environ':
             emit('R16.5.ambient', n, 'reads the process environment')
